@@ -659,6 +659,66 @@ fn templates() -> Vec<(&'static str, Cfg, Vec<Ev>)> {
         evs.push(Ev::Deliver(usize::MAX, true, true));
         v.push((name, cfg, evs));
     }
+    // T5 ("Figure 8" of the Raft paper): an entry of an OLD term stored on a quorum must not be
+    // committed by counting replicas; only an entry of the leader's current term commits. S1..S5 = 0..4.
+    v.push((
+        "figure8-old-term-entry-on-quorum",
+        cfg5(),
+        vec![
+            Ev::Timeout(0, true),                                   // S1 candidate term 1
+            Ev::Inject(0, 1, M::Rv(1, 0, 0, 0), true, true),
+            Ev::Inject(0, 2, M::Rv(1, 0, 0, 0), true, true),
+            Ev::Inject(1, 0, M::Rvr(1, true, 1), true, true),
+            Ev::Inject(2, 0, M::Rvr(1, true, 2), true, true),       // S1 leader term 1
+            Ev::Propose(0, 11, true),                               // S1: [1:11]
+            Ev::Replicate(0, 1),
+            Ev::Deliver(usize::MAX, true, true),                    // S2 appends [1:11]
+            Ev::Deliver(usize::MAX, true, true),                    // S1 hears the ack: 2 of 5
+            Ev::Timeout(4, true),                                   // S5 term 1
+            Ev::Timeout(4, true),                                   // S5 term 2
+            Ev::Inject(4, 2, M::Rv(2, 4, 0, 0), true, true),
+            Ev::Inject(4, 3, M::Rv(2, 4, 0, 0), true, true),
+            Ev::Inject(2, 4, M::Rvr(2, true, 2), true, true),
+            Ev::Inject(3, 4, M::Rvr(2, true, 3), true, true),       // S5 leader term 2
+            Ev::Propose(4, 22, true),                               // S5: [2:22], nowhere else
+            Ev::Inject(4, 0, M::Rv(2, 4, 0, 0), true, true),        // S1 learns term 2, steps down, refuses
+            Ev::Timeout(0, true),                                   // S1 candidate term 3
+            Ev::Inject(0, 1, M::Rv(3, 0, 1, 1), true, true),
+            Ev::Inject(0, 2, M::Rv(3, 0, 1, 1), true, true),
+            Ev::Inject(1, 0, M::Rvr(3, true, 1), true, true),
+            Ev::Inject(2, 0, M::Rvr(3, true, 2), true, true),       // S1 leader term 3 with [1:11]
+            Ev::Replicate(0, 2),
+            Ev::Deliver(usize::MAX, true, true),                    // S3 lacks index 1: refuses
+            Ev::Deliver(usize::MAX, true, true),
+            Ev::Replicate(0, 2),
+            Ev::Deliver(usize::MAX, true, true),                    // S3 appends [1:11]
+            Ev::Deliver(usize::MAX, true, true),                    // ack
+            Ev::Replicate(0, 1),
+            Ev::Deliver(usize::MAX, true, true),
+            Ev::Deliver(usize::MAX, true, true),                    // [1:11] now on S1,S2,S3 — NOT committable in term 3
+            Ev::Inject(0, 4, M::Rv(3, 0, 1, 1), true, true),        // S5 learns term 3, refuses (its log is newer)
+            Ev::Timeout(4, true),                                   // S5 candidate term 4
+            Ev::Inject(4, 1, M::Rv(4, 4, 1, 2), true, true),
+            Ev::Inject(4, 2, M::Rv(4, 4, 1, 2), true, true),
+            Ev::Inject(4, 3, M::Rv(4, 4, 1, 2), true, true),
+            Ev::Inject(1, 4, M::Rvr(4, true, 1), true, true),
+            Ev::Inject(2, 4, M::Rvr(4, true, 2), true, true),
+            Ev::Inject(3, 4, M::Rvr(4, true, 3), true, true),       // S5 leader term 4 with [2:22]
+            Ev::Propose(4, 44, true),                               // S5: [2:22, 4:44]
+            Ev::Replicate(4, 1),
+            Ev::Deliver(usize::MAX, true, true),                    // S2 holds 1:11 at index 1: refuses
+            Ev::Deliver(usize::MAX, true, true),
+            Ev::Replicate(4, 1),
+            Ev::Deliver(usize::MAX, true, true),                    // S2 overwrites index 1
+            Ev::Deliver(usize::MAX, true, true),
+            Ev::Replicate(4, 2),
+            Ev::Deliver(usize::MAX, true, true),
+            Ev::Deliver(usize::MAX, true, true),
+            Ev::Replicate(4, 2),
+            Ev::Deliver(usize::MAX, true, true),
+            Ev::Deliver(usize::MAX, true, true),                    // S5 commits index 2 (term 4): index 1 = 2:22
+        ],
+    ));
     // T4: the same with 5 voters: two disjoint pairs vote, the fifth voter hears the heartbeat first
     v.push((
         "late-vote-request-after-heartbeat-5",
